@@ -263,7 +263,7 @@ PROPS["C08"] = dict(
           "a leave at incarnation >= held for an alive/suspect record gives left (not dead) and exactly one leave event; an alive no newer than the recorded "
           "departure/death from the same address changes nothing; an alive from a different address never changes the address of an alive, suspect or "
           "recently-dead record (conflict callback with existing/other for newer claims); after a leave (immediately) or a death older than a positive reclaim "
-          "time the claim is adopted (alive at the new address, one join event). Leaver role: the real node with 0-3 live peers, UpdateNode broadcasts pending, optionally every peer suspect in its view (still members, still to be told), accusations (suspect/dead/alive about itself) before, at the very virtual instant of (0-4 packets, offsets 0/+-1us/20us; also a held-lock schedule in which a delegate callback parks under the node lock while Leave and the claims queue behind it) and after Leave, repeated Leave: finality is judged on wire order and event order (after the self-signed dead leaves the node, no alive about itself and no join event for itself); every nil return implies own record left and, with a live peer in view, a self-signed dead sent to a live peer before the return; afterwards the node "
+          "time the claim is adopted (alive at the new address, one join event). Leaver role: the real node with 0-3 live peers, UpdateNode broadcasts pending, optionally every peer suspect in its view (still members, still to be told), accusations (suspect/dead/alive about itself) before, at the very virtual instant of (0-4 packets, offsets 0/+-1us/20us; also a held-lock schedule in which a delegate callback parks under the node lock while Leave and the claims queue behind it, in either order: Leave first, or the claims first so that they are served while the call is already under way) and after Leave, repeated Leave: finality is judged on wire order and event order (after the self-signed dead leaves the node, no alive about itself and no join event for itself); every nil return implies own record left and, with a live peer in view, a self-signed dead sent to a live peer before the return; afterwards the node "
           "never lists itself again. non-trivial = determinate peer-role case / a Leave racing accusations or an accusation after Leave"),
     tests=[
         dict(name="peer", run="^TestLeaveFinalAndHijack$",
@@ -495,7 +495,7 @@ PROPS["C19"] = dict(
           "time by any of the three routes; indirect requests and TCP pings are only issued after the probe timeout; GetHealthScore equals a clamped counter "
           "model (-1 answered, +1 failed without nack-capable helpers, + expected - received nacks otherwise) after every probe. relay role: 1-6 indirect-ping "
           "requests (with/without nack, with/without source address, repeated requester numbers, 1-700 ms apart) whose target answers in time / twice / late / "
-          "never / with a foreign number / or whose acknowledgement (the node numbers its pings consecutively, so the number is known) already waits behind the request in the same packet: fresh sequence number towards the target, exactly one relayed ack under the requester's number 100.4 ms after the "
+          "never / with a foreign number / or whose acknowledgement (the node numbers its pings consecutively, so the number is known) already waits behind the request in the same packet; the relay may itself hold the target as dead or departed (it is asked all the same): fresh sequence number towards the target, exactly one relayed ack under the requester's number 100.4 ms after the "
           "request, or exactly one nack at the probe timeout iff requested, nothing else. send failures: the node's health score is first raised by 0-3 refuted accusations; each of 1-5 probes of the subject is answered, or its ping cannot be sent because of a local error (the score does not move, nobody is asked to help, nobody is suspected) or because the transport blames the peer (helpers are asked at once, the probe fails at its deadline and costs health by the nack rule); GetHealthScore equals the model after every probe. cleanup (overlay hook): no pending handler survives its deadline. "
           "User pings (Ping(), same acknowledgement table): 1-6 calls whose target answers with the right number early, late, from a third party, with another / the previous call's number, with a nack, or not at all, with unrelated acknowledgements in between: success iff the own number arrived within ProbeTimeout, round trip as sent, return by the deadline, health untouched. "
           "non-trivial = probe with a late, foreign or duplicate acknowledgement / any relay request / handlers observed pending / a user ping that is not simply answered"),
